@@ -301,6 +301,8 @@ GEN = {
     "C19": "classification_encoding, multilabel_encoding and prediction_encoding (the encoder entering through its encode function and num_classes)",
     "C04": "the validators ClipEvaluation._check_clips_match / _check_matches, AnnotationProject._annotations_are_part_of_the_project and Clip._validate_times",
     "C05": "the nine per-type functions of compute_geometric_features and its dispatch table",
+    "C08": "iterate_over_valid_clips (which clips are evaluated, and with which annotation)",
+    "C09": "iterate_over_valid_clips (which clips are evaluated, and with which annotation)",
 }
 for _pid, _what in GEN.items():
     _t, _n, _tech, _ref = CLAIMED[_pid]
